@@ -5,7 +5,9 @@ fake provider.  Several flows are started; then authorization responses, token r
 responses are delivered whose fields are RECOMBINED across flows and issuers (state of A + code of B, ID token
 of A in the token response of B, response of issuer I delivered to the client for J, iss / client_id
 response parameters right / wrong / absent, unknown / truncated / case-changed state, an ID token whose
-subject is another flow's nonce).  After every operation the state stores of all clients
+subject is another flow's nonce; BACK-CHANNEL answers - token response of a code exchange, refresh response, user
+info, directly / through the RPHandler / inside finalize - that carry members naming ANOTHER session: a `state`
+member, iss, client_id, nonce, code, ..., the ID Token of another flow).  After every operation the state stores of all clients
 (context.cstate._db / _map) are snapshotted.  The Gallina model (Model/RpState.v) replays every trace inside
 coqc; the oracle (frame condition on the snapshots + "accepted => state was issued by this RP for this
 issuer" + nonce / sub binding) is written from the property text and does not use the model.
@@ -27,11 +29,21 @@ RULE = ("traces over 1-3 issuers (one real client each, with and without RPHandl
         "by member out of their genuine artefacts - state of A x code of A/B/absent x signed ID Token of A/B/C/absent "
         "(its own nonce, c_hash of its own code, at_hash of its own access token) x access token of A/B/absent - "
         "then the genuine responses of A and B, plus random histories of such deliveries over all response types; "
+        "back-channel responses: four sessions in the state stores (A finished with tokens, B, D pending on the same "
+        "client, C at another issuer) and every request the RP makes FOR one state - get_tokens, refresh_access_token, "
+        "get_user_info, on the client and through the RPHandler, and inside the finalize pipeline - answered by the stub "
+        "HTTP layer with the genuine answer plus one injected / swapped member: `state` of a finished / pending / other "
+        "issuer's / unknown / empty / own session, iss, client_id, nonce, code, redirect_uri, refresh_token, access_token, "
+        "sub, __verified_id_token, __expires_at, x ID Token of own / other flow / own nonce with another user's sub / other "
+        "flow's nonce with own sub / without nonce / of another issuer, then pairs (state of A + ID Token of A ...), each "
+        "followed by the genuine requests of the sessions involved, plus random histories of such requests; "
         "a trace is non-trivial when it has at least two pending flows and at least one accepted and one refused delivery")
 ASSUMPTIONS = [
     "state and nonce values drawn by the client (rndstr) are fresh: they are fed to the model as observed",
     "ID-token validation is the model of C08 (Model/IdToken.v) with ideal signatures",
     "the token and userinfo endpoints answer 200 with a JSON object (error statuses are not modelled)",
+    "the finalize pipeline (finalize_auth + get_tokens + get_user_info in one call) is judged by the oracle only",
+    "the token-exchange service is not one of a StandAloneClient's default services and is not driven",
 ]
 
 USERS = ["diana", "bob", "carol"]
@@ -194,6 +206,42 @@ def hybrid_oracle(ctx, flows, det, target, issued, ok, after_db, what, rec):
                           % (owner.n, (vid or {}).get("nonce"), (vid or {}).get("sub"), what), rec)
 
 
+BACKCHANNEL = ("token", "routed_token", "refresh", "routed_refresh", "userinfo", "routed_userinfo", "finalize")
+
+
+def backchannel_oracle(ctx, kind, det, target, issued, ok, changed, before_db, after_db, what, rec):
+    """Ground truth = the state the relying party made the request FOR (the argument of get_tokens /
+    refresh_access_token / get_user_info; for finalize the state of the authorization response it then redeems),
+    at the client that holds that session.  Whatever the answer contains, it is recorded under that state or
+    refused, and the record of no other session changes - in particular not the one the answer names."""
+    if kind == "finalize":
+        body, ui = det.get("token_body") or {}, det.get("userinfo") or {}
+    elif kind.endswith("userinfo"):
+        body, ui = {}, det["claims"]
+    else:
+        body, ui = det["params"], {}
+    named = {v for v in (body.get("state"), ui.get("state")) if isinstance(v, str)}
+    ctx.count("backchannel:%s:%s" % (kind, "names-other-session" if any((target[0], v) != target and
+                                                                          any(s == v for (_, s) in issued) for v in named)
+                                       else "names-unknown-state" if named - {target[1]} else
+                                       "names-own-state" if named else "no-state-member"))
+    for k in changed:
+        if k != target and k[1] in named:
+            ctx.violation("backchannel-recorded-under-state-of-response", "the answer to a request made for %s changed the "
+                          "record of %s, the state the ANSWER names: %s" % (target, k, what), rec)
+    if not ok or target not in issued:
+        return
+    stored = after_db.get(target, {})
+    # recorded under the state of the request
+    if body and "access_token" in body and stored.get("access_token") != body["access_token"]:
+        ctx.violation("backchannel-not-recorded-under-request-state:access_token", "accepted token response: access token "
+                      "%r is not what the record of %s holds (%r): %s"
+                      % (body["access_token"], target, stored.get("access_token"), what), rec)
+    if ui and "sub" in ui and stored.get("sub") != ui["sub"]:
+        ctx.violation("backchannel-not-recorded-under-request-state:userinfo", "accepted user info about %r is not what the "
+                      "record of %s holds (%r): %s" % (ui["sub"], target, stored.get("sub"), what), rec)
+
+
 def norm_db(snap):
     return {(iss, st): rec for iss, db, _ in snap for st, rec in db.items()}
 
@@ -221,13 +269,18 @@ def oracle(ctx, world, flows, rec):
         if kind == "authz":
             st = det["params"].get("state")
             target = (det["issuer"], st if isinstance(st, str) else None)
-        elif kind == "routed_token":
+        elif kind == "finalize":
+            st = det["params"].get("state")
+            target = (det["issuer"], st if isinstance(st, str) else None)
+        elif kind in ("routed_token", "routed_refresh", "routed_userinfo"):
             holders = [i for (i, s) in before_db if s == det["state"]]
             target = (holders[0] if holders else None, det["state"])
         else:
             target = (det["issuer"], det["state"])
         # (a) a refused operation changes nothing
-        if (not ok or is_error_resp) and (changed or mchanged):
+        # (finalize is a pipeline: its first stage may have been accepted - and recorded under the addressed state,
+        #  which (b) and (c) hold it to - before a later stage is refused)
+        if (not ok or is_error_resp) and (changed or mchanged) and kind != "finalize":
             ctx.violation("rejected-but-changed", "refused operation altered state: %s; changed %s %s"
                           % (what, sorted(changed), sorted(mchanged)), rec)
         # (b) frame: only the record of the addressed (issuer, state) may change
@@ -245,6 +298,8 @@ def oracle(ctx, world, flows, rec):
             elif f is None and after_map.get((iss, key)) != target[1]:
                 ctx.violation("frame-map-foreign-binding", "operation for %s bound %r to %r: %s"
                               % (target, key, after_map.get((iss, key)), what), rec)
+        if kind in BACKCHANNEL:
+            backchannel_oracle(ctx, kind, det, target, issued, ok and not is_error_resp, changed, before_db, after_db, what, rec)
         if kind == "authz" and "members" in det:
             hybrid_oracle(ctx, flows, det, target, issued, ok and not is_error_resp, after_db, what, rec)
         if not ok or is_error_resp:
@@ -285,7 +340,34 @@ def oracle(ctx, world, flows, rec):
                 if tok["claims"].get("iss") != target[0]:
                     ctx.violation("idtoken-of-other-issuer-accepted", "ID token of %s accepted by the client for %s: %s"
                                   % (tok["claims"].get("iss"), target[0], what), rec)
-        elif kind == "userinfo":
+        elif kind == "finalize":
+            if target not in issued:
+                ctx.violation("accepted-foreign-state", "finalize completed for a state this RP did not issue: %s" % what, rec)
+            tok = det.get("tok")
+            if tok is not None and target in issued and tok["claims"].get("nonce") != issued[target].nonce:
+                ctx.violation("idtoken-nonce-of-other-flow-accepted", "finalize completed with a token response whose ID "
+                              "token carries the nonce of another flow: %s" % what, rec)
+        elif kind in ("refresh", "routed_refresh"):
+            if target not in issued:
+                ctx.violation("accepted-foreign-state", "refresh response recorded under a state this RP did not issue: %s"
+                              % what, rec)
+            tok = det.get("tok")
+            if tok is not None and target in issued:
+                # the ID Token of a refresh response is the ID Token of THIS session (OIDC Core 12.2): a nonce in it
+                # is the nonce sent for this state, its subject is the subject the session was established for
+                n = tok["claims"].get("nonce")
+                if n is not None and n != issued[target].nonce:
+                    ctx.violation("refresh-idtoken-not-of-this-session:nonce-of-other-flow", "refresh response accepted "
+                                  "with an ID token whose nonce belongs to another flow: %s" % what, rec)
+                vid = before_db.get(target, {}).get("__verified_id_token")
+                if isinstance(vid, dict) and "sub" in vid and tok["claims"].get("sub") != vid["sub"]:
+                    ctx.violation("refresh-idtoken-not-of-this-session:sub-of-other-user", "refresh response accepted with "
+                                  "an ID token about %r for the session of %r: %s"
+                                  % (tok["claims"].get("sub"), vid["sub"], what), rec)
+                if tok["claims"].get("iss") != target[0]:
+                    ctx.violation("idtoken-of-other-issuer-accepted", "ID token of %s accepted by the client for %s: %s"
+                                  % (tok["claims"].get("iss"), target[0], what), rec)
+        elif kind in ("userinfo", "routed_userinfo"):
             if target not in issued:
                 ctx.violation("accepted-foreign-state", "user info recorded under a state this RP did not issue: %s" % what, rec)
             vid = before_db.get(target, {}).get("__verified_id_token")
@@ -473,6 +555,192 @@ def random_hybrid_history(ctx, base_world, rng, traces):
     finish(ctx, w, flows, "random-hybrid", traces)
 
 
+# ---------------------------------------------------------------------------------- back-channel responses
+BC_PLAN = [(H.ISS, "diana", "code"), (H.ISS, "bob", "code"), (H.ISS2, "carol", "code"), (H.ISS, "carol", "code")]
+
+
+def bc_idtoken(flows, spec, k, now):
+    """spec: None | 'own' | ('flow', j) the genuine ID Token of flow j | ('sub', j) own nonce, subject of flow j |
+    ('nonce', j) nonce of flow j, own subject | 'no-nonce' | ('issuer', j) own nonce and subject, minted by flow j's issuer"""
+    if spec is None:
+        return None
+    f = flows[k]
+    if spec == "own":
+        return idtoken(f, now, hybrid=False)
+    if spec == "no-nonce":
+        t = idtoken(f, now, hybrid=False)
+        del t["claims"]["nonce"]
+        return t
+    how, j = spec
+    if how == "flow":
+        return idtoken(flows[j], now, hybrid=False)
+    if how == "sub":
+        return idtoken(f, now, hybrid=False, sub=flows[j].user)
+    if how == "nonce":
+        return idtoken(f, now, hybrid=False, nonce=flows[j].nonce)
+    if how == "issuer":
+        return idtoken(f, now, hybrid=False, issuer=flows[j].issuer)
+    raise ValueError(spec)
+
+
+def bc_value(flows, k, v):
+    """resolve '@state:j' / '@nonce:j' / '@code:j' / '@at:j' / '@rt:j' / '@user:j' / '@iss:j' to the value of flow j"""
+    if isinstance(v, str) and v.startswith("@"):
+        what, j = v[1:].split(":")
+        f = flows[int(j)]
+        return {"state": f.state, "nonce": f.nonce, "code": f.code, "at": f.at, "rt": "rt-%d" % f.n, "user": f.user,
+                "iss": f.issuer}[what]
+    if isinstance(v, dict):
+        return {a: bc_value(flows, k, b) for a, b in v.items()}
+    return v
+
+
+def bc_call(w, flows, kind, k, inject=None, idt=None, routed=False, gen=0):
+    """the request `kind` made FOR flow k, answered with the genuine answer for flow k + the injected members"""
+    f = flows[k]
+    inject = {a: bc_value(flows, k, b) for a, b in (inject or {}).items()}
+    routed = routed and w.rph is not None
+    if kind == "userinfo":
+        claims = {"sub": f.user, "name": f.user.title()}
+        claims.update(inject)
+        return w.userinfo(f.issuer, f.state, claims, routed=routed)
+    tok = bc_idtoken(flows, idt, k, w.clock.now)
+    if kind == "token":
+        params = {"access_token": f.at, "token_type": "Bearer", "expires_in": 300, "refresh_token": "rt-%d" % f.n}
+        params.update(inject)
+        return w.token(f.issuer, f.state, params, tok, routed=routed)
+    params = {"access_token": "%s-r%d" % (f.at, gen), "token_type": "Bearer", "expires_in": 300}
+    params.update(inject)
+    return w.refresh(f.issuer, f.state, params, tok, routed=routed)
+
+
+def bc_start(w):
+    """A (flow 0, diana) finished: code redeemed with ID Token and refresh token; B (flow 1, bob) and C (flow 2, carol,
+    other issuer) finalized, code not yet redeemed; D (flow 3, same client as A and B) pending: only begun"""
+    flows = start(w, BC_PLAN)
+    for k in (0, 1, 2):
+        deliver_authz(w, flows, flows[k].issuer, k, None, k, None, None, None)
+    bc_call(w, flows, "token", 0, idt="own")
+    return flows
+
+
+BC_STATES = [("state:finished-session", "@state:0"), ("state:pending-session", "@state:3"), ("state:other-issuer", "@state:2"),
+             ("state:unknown", "Zz-not-issued"), ("state:empty", ""), ("state:own", "@state:1")]
+BC_MEMBERS = [("iss:own", {"iss": "@iss:1"}), ("iss:other", {"iss": "@iss:2"}), ("iss:evil", {"iss": "https://evil.example.com"}),
+              ("client_id:own", {"client_id": H.CLIENT_ID}), ("client_id:other", {"client_id": "someone-else"}),
+              ("nonce:of-A", {"nonce": "@nonce:0"}), ("code:of-A", {"code": "@code:0"}),
+              ("redirect_uri", {"redirect_uri": "https://evil.example.com/cb"}),
+              ("response_type", {"response_type": "id_token"}), ("sub:of-A", {"sub": "@user:0"})]
+BC_TOKEN_ONLY = [("refresh_token:of-A", {"refresh_token": "@rt:0"}), ("access_token:of-A", {"access_token": "@at:0"}),
+                 ("__expires_at", {"__expires_at": 1}), ("__verified_id_token", {"__verified_id_token": {"sub": "@user:0"}})]
+BC_IDTS = [("idt:own", "own"), ("idt:of-A", ("flow", 0)), ("idt:of-C", ("flow", 2)), ("idt:of-D", ("flow", 3)),
+           ("idt:own-nonce-sub-of-A", ("sub", 0)), ("idt:nonce-of-A-own-sub", ("nonce", 0)),
+           ("idt:nonce-of-D-own-sub", ("nonce", 3)), ("idt:no-nonce", "no-nonce"), ("idt:minted-by-other-issuer", ("issuer", 2))]
+
+
+def bc_followups(w, flows):
+    """the genuine requests of the sessions involved: each must be served from the record of ITS state"""
+    bc_call(w, flows, "userinfo", 0)
+    bc_call(w, flows, "refresh", 1, idt="own", gen=7)
+    bc_call(w, flows, "userinfo", 1)
+    bc_call(w, flows, "refresh", 0, idt="own", gen=8)
+    bc_call(w, flows, "token", 2, idt="own")
+
+
+def backchannel_matrix(ctx, base_world, traces, tag, quick):
+    """Every request kind made for B (flow 1) x every single injected member / ID Token, direct and routed."""
+    cases = []
+    for kind in ("token", "refresh", "userinfo"):
+        singles = [("genuine", {}, "own" if kind != "userinfo" else None)]
+        if kind != "userinfo":          # the answer names a session and carries no ID Token at all, then its own
+            singles += [(n + "+idt:none", {"state": v}, None) for n, v in BC_STATES]
+        singles += [(n, {"state": v}, "own" if kind != "userinfo" else None) for n, v in BC_STATES]
+        singles += [(n, m, "own" if kind != "userinfo" else None) for n, m in BC_MEMBERS]
+        if kind != "userinfo":
+            singles += [(n, m, "own") for n, m in BC_TOKEN_ONLY]
+            singles += [(n, {}, spec) for n, spec in BC_IDTS] + [("idt:none", {}, None)]
+            # pairs: the answer is self-consistent about ANOTHER session (its state + its ID Token / nonce / subject)
+            singles += [("state+idt:of-A", {"state": "@state:0"}, ("flow", 0)),
+                        ("state+idt:of-D", {"state": "@state:3"}, ("flow", 3)),
+                        ("state+idt:of-C", {"state": "@state:2"}, ("flow", 2)),
+                        ("state-of-A+nonce-of-A", {"state": "@state:0", "nonce": "@nonce:0"}, ("nonce", 0)),
+                        ("state-of-A+iss+client_id", {"state": "@state:0", "iss": "@iss:0", "client_id": H.CLIENT_ID}, "own")]
+        else:
+            singles += [("access_token:of-A", {"access_token": "@at:0"}, None), ("sub:other", {"sub": "mallory"}, None),
+                        ("state-of-A+sub-of-A", {"state": "@state:0", "sub": "@user:0"}, None),
+                        ("id_token-claim", {"id_token": "not-a-jwt"}, None)]
+        for name, inj, idt in singles:
+            for routed in ((False, True) if base_world.rph is not None else (False,)):
+                if quick and routed and not (name.startswith("state") or name in ("genuine", "iss:other", "idt:of-A")):
+                    continue
+                cases.append((kind, name, inj, idt, routed))
+    for kind, name, inj, idt, routed in cases:
+        w = H.fresh_world(base_world)
+        flows = bc_start(w)
+        if kind != "token":
+            bc_call(w, flows, "token", 1, idt="own")           # B has tokens, an ID Token and a refresh token
+        bc_call(w, flows, kind, 1, inject=inj, idt=idt, routed=routed, gen=1)
+        bc_followups(w, flows)
+        finish(ctx, w, flows, "backchannel%s:%s%s:%s" % (tag, "routed-" if routed else "", kind, name), traces)
+
+
+def finalize_matrix(ctx, base_world, traces, tag):
+    """client.finalize / rph.finalize for B: finalize_auth, then the code exchange and the user-info request made
+    for the state of the authorization response; the token endpoint's answer names another session"""
+    variants = [("genuine", {}, "own", {})] + [(n, {"state": v}, "own", {}) for n, v in BC_STATES]
+    variants += [("state+idt:of-A", {"state": "@state:0"}, ("flow", 0), {}), ("idt:of-A", {}, ("flow", 0), {}),
+                 ("idt:nonce-of-D-own-sub", {}, ("nonce", 3), {}), ("iss:other", {"iss": "@iss:2"}, "own", {}),
+                 ("userinfo-state-of-A", {}, "own", {"state": "@state:0"}),
+                 ("userinfo-sub-of-A", {}, "own", {"sub": "@user:0"}),
+                 ("both-name-A", {"state": "@state:0"}, "own", {"state": "@state:0", "iss": "@iss:2"})]
+    for name, inj, idt, ui_inj in variants:
+        w = H.fresh_world(base_world)
+        flows = start(w, BC_PLAN)
+        deliver_authz(w, flows, H.ISS, 0, None, 0, None, None, None)
+        bc_call(w, flows, "token", 0, idt="own")
+        f = flows[1]
+        body = {"access_token": f.at, "token_type": "Bearer", "expires_in": 300, "refresh_token": "rt-1"}
+        body.update({a: bc_value(flows, 1, b) for a, b in inj.items()})
+        ui = {"sub": f.user, "name": "Bob"}
+        ui.update({a: bc_value(flows, 1, b) for a, b in ui_inj.items()})
+        w.finalize(H.ISS, {"state": f.state, "code": f.code}, body, bc_idtoken(flows, idt, 1, w.clock.now), ui)
+        bc_call(w, flows, "userinfo", 0)
+        bc_call(w, flows, "refresh", 1, idt="own", gen=7)
+        bc_call(w, flows, "refresh", 0, idt="own", gen=8)
+        finish(ctx, w, flows, "finalize%s:%s" % (tag, name), traces)
+
+
+def random_backchannel_history(ctx, base_world, rng, traces):
+    """3-6 sessions over the issuers of the world (most of them finalized, some with tokens), then 8-16 requests of
+    random kind for random sessions, each answered with 0-2 injected members naming OTHER sessions and an ID Token
+    drawn from {own, another flow's, own nonce + other subject, other nonce + own subject, none}"""
+    w = H.fresh_world(base_world)
+    issuers = list(w.clients)
+    n = rng.randint(3, 6)
+    flows = start(w, [(rng.choice(issuers), rng.choice(USERS), "code") for _ in range(n)])
+    for k in range(n):
+        if rng.random() < 0.85:
+            deliver_authz(w, flows, flows[k].issuer, k, None, k, None, None, None)
+            if rng.random() < 0.6:
+                bc_call(w, flows, "token", k, idt=rng.choice(["own", "own", None]))
+    for g in range(rng.randint(8, 16)):
+        k = rng.randrange(n)
+        other = lambda: rng.randrange(n)     # noqa: E731
+        kind = rng.choice(["token", "refresh", "refresh", "userinfo"])
+        inj = {}
+        for _ in range(rng.choice([0, 1, 1, 2])):
+            m = rng.choice(["state", "state", "state", "iss", "client_id", "nonce", "code", "refresh_token", "sub"])
+            inj[m] = {"state": rng.choice(["@state:%d" % other(), "@state:%d" % other(), "Zz-not-issued", ""]),
+                      "iss": "@iss:%d" % other(), "client_id": rng.choice([H.CLIENT_ID, "someone-else"]),
+                      "nonce": "@nonce:%d" % other(), "code": "@code:%d" % other(), "refresh_token": "@rt:%d" % other(),
+                      "sub": "@user:%d" % other()}[m]
+        if kind == "userinfo":
+            inj.pop("refresh_token", None)
+        idt = rng.choice(["own", "own", None, ("flow", other()), ("sub", other()), ("nonce", other()), "no-nonce"])
+        bc_call(w, flows, kind, k, inject=inj, idt=idt, routed=rng.random() < 0.3, gen=g)
+    finish(ctx, w, flows, "random-backchannel", traces)
+
+
 def run(ctx):
     import logging
     logging.disable(logging.CRITICAL)
@@ -500,6 +768,14 @@ def run(ctx):
                                ("-es256", ("ES256", "iss_ec", "e1"), True, RT_HYBRID[3:4])):
         wd = H.make_world(clock, issuers=(H.ISS, H.ISS2), rph=rph, reg="dynamic", sigalg=sig[0])
         hybrid_matrix(ctx, wd, traces, rts=rts if ctx.quick else RT_HYBRID, sig=sig, tag=tag)
+    # back-channel responses (answers to requests the RP made for one state) naming other sessions
+    bc_worlds = {
+        "-rph": H.enable_token_endpoint_auth(H.make_world(clock, issuers=(H.ISS, H.ISS2, H.ISS3), rph=True, reg="dynamic", sigalg="RS256")),
+        "-sa": H.enable_token_endpoint_auth(H.make_world(clock, issuers=(H.ISS, H.ISS2), rph=False, reg="dynamic", sigalg="RS256")),
+    }
+    for tag, wd in bc_worlds.items():
+        backchannel_matrix(ctx, wd, traces, tag, ctx.quick)
+        finalize_matrix(ctx, wd, traces, tag)
     n = 360 if ctx.quick else 6000
     names = list(worlds)
     for i in range(n):
@@ -510,6 +786,10 @@ def run(ctx):
     # (after the older random families, so that those draw the same histories for a seed as before)
     for i in range(120 if ctx.quick else 3000):
         random_hybrid_history(ctx, worlds[names[i % len(names)]], rng, traces)
+    # (after all older random families, for the same reason)
+    bcs = list(bc_worlds.values())
+    for i in range(150 if ctx.quick else 3000):
+        random_backchannel_history(ctx, bcs[i % len(bcs)], rng, traces)
     clock.uninstall()
     H.check_cases(ctx, H.TRACE_IMPORTS, H.TRACE_TYPE, "chk_trace", traces, shard=40, label="trace", diag="first_bad_step")
 
